@@ -9,6 +9,8 @@ package c12
 import (
 	"encoding/json"
 	"fmt"
+	"sort"
+	"strings"
 	"time"
 
 	"github.com/pion/interceptor/verifh/hk"
@@ -184,6 +186,41 @@ func pumpCycle(j job, cycle []int) ([]int64, *vsched.Result) {
 		_ = p.s.I.Close()
 	})
 	return sizes, res
+}
+
+// cause names what a growing cycle needs: nothing if the kind already grows on in-order traffic alone (then
+// every cycle grows for that reason), else the irregular operations of the cycle (skip, dup, late) or, without
+// any, the whole cycle. Known findings are keyed by it, so that growth for another reason is still reported.
+var inOrderGrows = map[string]int{}
+
+func cause(j job, c []int) string {
+	g, ok := inOrderGrows[j.Kind]
+	if !ok {
+		g = 0
+		if sizes, res := pumpCycle(j, []int{0}); len(res.Panics) == 0 && !res.StepLimit && !res.Deadlock && leak(sizes, j.P) {
+			g = 1
+		}
+		inOrderGrows[j.Kind] = g
+	}
+	if g == 1 {
+		return ""
+	}
+	set := map[string]bool{}
+	for _, o := range c {
+		if o >= 1 && o <= 3 {
+			set[opNames[o]] = true
+		}
+	}
+	var l []string
+	for n := range set {
+		l = append(l, n)
+	}
+	if len(l) == 0 {
+		l = names(c)
+	} else {
+		sort.Strings(l)
+	}
+	return ":on-" + strings.Join(l, "+")
 }
 
 // leak: the retained size grew in every one of the last three phases by at least one byte per iteration.
@@ -366,8 +403,8 @@ func run(tier string, i int, deadline time.Time) *hk.JobResult {
 		}
 		if leak(sizes, j.P) {
 			r.Outcomes["grows"]++
-			if len(r.Violations) < 6 {
-				r.Violations = append(r.Violations, hk.Violation{Key: fmt.Sprintf("C12:%s:grows-with-traffic", j.Kind),
+			if len(r.Violations) < 12 {
+				r.Violations = append(r.Violations, hk.Violation{Key: fmt.Sprintf("C12:%s:grows-with-traffic%s", j.Kind, cause(j, c)),
 					Message: fmt.Sprintf("%s: retained size at the end of five equal phases of %d x %v: %v bytes - it grows by at least a byte per iteration in every phase", j.Kind, j.P, names(c), sizes),
 					Replay:  replay{j, names(c), c, "cycle"}})
 			}
